@@ -102,12 +102,15 @@ def spec_grain(ck, rows):
                     vlib.log("CONFORMANCE-DRIFT property=C02 the real pool took a step TriggerPool.tla does not have: " + msg[:300])
             # binding self-test: a ledger that is off by one must be rejected
             muts = []
-            for t in lst[:3]:
+            # (taken from schedules the specification followed: a corrupted ledger must then be refused)
+            for t in [lst[b - 1] for b in sorted(acc)][:3]:
                 m = dict(workers=t["workers"], maxiter=t["maxiter"], arr=copy.deepcopy(t["arr"]))
                 m["arr"][-1][3] += 1
                 muts.append(m)
             f2 = os.path.join(d, "mut_%d.ndjson" % k)
             vlib.write_ndjson(f2, muts)
+            if not muts:
+                continue
             r2, acc2, _ = _accepts("Trace_TriggerPool_%d.cfg" % k, f2, len(muts))
             if acc2:
                 raise vlib.MachineryError("Trace_TriggerPool self-test: corrupted traces %s were accepted" % sorted(acc2))
